@@ -231,7 +231,8 @@ class IsotensionCriteria(BaseCriteria):
         elastic_energy = context.pressure * (
             current_volume - old_volume
         ) + old_volume * np.trace(
-            (context.external_stress - context.pressure) @ self.strain_tensor
+            (context.external_stress - context.pressure * np.eye(3))
+            @ self.strain_tensor
         )
 
         return _metropolis(
